@@ -135,12 +135,18 @@ type zzC02LER struct{ ler common.Hash }
 
 func (l *zzC02LER) GetLastLocalExitRoot() (common.Hash, error) { return l.ler, nil }
 
-type zzC02Signer struct{ signertypes.Signer }
-
-func (zzC02Signer) SignHash(ctx context.Context, h common.Hash) ([]byte, error) {
-	return make([]byte, 65), nil
+type zzC02Signer struct {
+	signertypes.Signer
+	signed []common.Hash
 }
-func (zzC02Signer) PublicAddress() common.Address  { return common.Address{1} }
+
+func (s *zzC02Signer) SignHash(ctx context.Context, h common.Hash) ([]byte, error) {
+	s.signed = append(s.signed, h)
+	sig := make([]byte, 65)
+	sig[0] = byte(len(s.signed))
+	return sig, nil
+}
+func (*zzC02Signer) PublicAddress() common.Address { return common.Address{1} }
 
 type zzC02Rate struct{}
 
@@ -170,6 +176,8 @@ type zzC02Agglayer struct {
 	faults   bool
 	startLER common.Hash
 	l2       *zzC02L2
+	signer   *zzC02Signer
+	fep      bool
 }
 
 func (a *zzC02Agglayer) lastSettled() *zzC02Cert {
@@ -224,6 +232,23 @@ func (a *zzC02Agglayer) SendCertificate(ctx context.Context, c *agglayertypes.Ce
 		}
 	}
 	zzverif.Assert("no other imported exit", len(c.ImportedBridgeExits) == k)
+	// the signature attached is the configured signer's answer over the commitment of this very certificate
+	if n := len(a.signer.signed); n > 0 {
+		want := c.PPHashToSign()
+		var sig []byte
+		if a.fep {
+			want = c.FEPHashToSign()
+			if d, ok := c.AggchainData.(*agglayertypes.AggchainDataProof); ok {
+				sig = d.Signature
+			}
+		} else if d, ok := c.AggchainData.(*agglayertypes.AggchainDataSignature); ok {
+			sig = d.Signature
+		}
+		zzverif.Assert("the last hash given to the signer is the commitment of the submitted certificate", a.signer.signed[n-1] == want)
+		zzverif.Assert("the signer's answer is attached", len(sig) == 65 && sig[0] == byte(n))
+	} else {
+		zzverif.Assert("the certificate was signed", false)
+	}
 	id := common.Hash(zzverif.Hash("certID"))
 	for _, x := range a.certs {
 		zzverif.Assume(x.id != id)
@@ -343,14 +368,15 @@ func ZZVerif_C02_Loop() {
 		zzverif.Assert("storage opens", false)
 		return
 	}
-	ag := &zzC02Agglayer{faults: faults, startLER: startLER, l2: l2}
+	signer := &zzC02Signer{}
+	ag := &zzC02Agglayer{faults: faults, startLER: startLER, l2: l2, signer: signer, fep: zzverif.Param("FLOW") == 1}
 	l1 := zzC02L1Info{root: zzverif.Hash("l1InfoRoot")}
 	base := flows.NewBaseFlow(logger, l2, st, l1, &zzC02LER{ler: startLER}, flows.NewBaseFlowConfig(uint(zzverif.Param("MAXSIZE")), 0, false))
-	var flow types.AggsenderFlow = flows.NewPPFlow(logger, base, st, l1, l2, zzC02Signer{}, false, 0)
+	var flow types.AggsenderFlow = flows.NewPPFlow(logger, base, st, l1, l2, signer, false, 0)
 	if zzverif.Param("FLOW") == 1 {
 		// the aggchain-prover flow: same base flow, proofs from a model prover that may prove less than requested
 		flow = flows.NewAggchainProverFlow(logger, flows.NewAggchainProverFlowConfigDefault(), base, zzC02Prover{l2: l2}, st, l1, l2, zzC02GERs{}, nil,
-			zzC02Signer{}, zzC02OptMode{}, nil)
+			signer, zzC02OptMode{}, nil)
 	}
 	zzTickCh = make(chan time.Time, 1)
 	epochCh := make(chan types.EpochEvent, 1)
